@@ -584,7 +584,8 @@ fn format_binary_op_multiline(
 
         // Check if the first line of the whole expression fits
         // (for lambdas with do blocks, this would be "left via i => do {")
-        let first_line_of_right = right_str.lines().next().unwrap_or(&right_str);
+        // (split on '\n' only: the text may hold a string literal that spans lines, whose bytes must stay as they are)
+        let first_line_of_right = right_str.split('\n').next().unwrap_or(&right_str);
         let first_line_combined = format!("{} {} {}", left_str, op_str, first_line_of_right);
 
         if indent + first_line_combined.len() <= max_cols {
@@ -592,7 +593,7 @@ fn format_binary_op_multiline(
             // If right_str is multi-line, this will preserve that structure
             if right_str.contains('\n') {
                 // Multi-line lambda (like with do block)
-                let remaining_lines = right_str.lines().skip(1).collect::<Vec<_>>().join("\n");
+                let remaining_lines = right_str.split('\n').skip(1).collect::<Vec<_>>().join("\n");
                 return format!(
                     "{} {} {}\n{}",
                     left_str, op_str, first_line_of_right, remaining_lines
